@@ -141,6 +141,8 @@ def req_fullpipe(name, k):
     req = [{"op": "barrier", "name": "go", "parties": 2}, {"op": "connect", "sock": "req", "ep": ep}, {"op": "sleep", "ms": 200}]
     for i in range(1, 7):
         req.append({"op": "send", "sock": "req", "mid": "q:%d" % i, "size": 30, "cancel_after_polls": k, "timeout_ms": 250})
+        # probe: right after a send that was dropped without effect, a send is the valid next call
+        req.append({"op": "send", "sock": "req", "mid": "q:%d" % (100 + i), "size": 30, "cancel_after_polls": k, "timeout_ms": 250})
         req.append({"op": "recv", "sock": "req"})                       # RCVTIMEO 40 ms: gives up, the REQ may send again
     req.append({"op": "barrier", "name": "serve", "parties": 2})
     for i in range(7, 13):
